@@ -126,6 +126,55 @@ def explore(ck: Check, slow: bool) -> None:
                         inputs.append(inp)
         ck.sample({"classes": sorted(files), "raise_points": points})
 
+        # ---- two workbooks of the SAME class open at the same time (a master file and a second file), nested: after both with-blocks
+        # no descriptor on either file is left and both of the caller's file objects are closed
+        import shutil
+        for cls, (path, opener, schema, mode) in files.items():
+            if cls in ("Numbers_Workbook", "XLS_Workbook") or "/" in cls:
+                continue
+            path2 = tdp / ("second" + path.suffix)
+            shutil.copy(path, path2)
+            for supplied in ([False, True] if mode else [False]):
+                for inner_raises in (False, True):
+                    ck.case((cls, supplied, "nested", inner_raises), feature=f"{cls}/two-open-at-once")
+                    ck.oracle_evaluations += 1
+                    inp = {"class": cls, "two_workbooks_open_at_once": True, "file_object_supplied": supplied, "inner_block_raises": inner_raises}
+                    fo1 = path.open(mode) if supplied else None
+                    fo2 = path2.open(mode) if supplied else None
+
+                    def bind(sheet: Any) -> Any:
+                        return sheet.set_schema_loader(HeadingRowSchemaLoader()) if schema == "heading" else sheet.set_schema(schema)
+
+                    try:
+                        with (opener(path, fo1) if supplied else opener(path)) as outer:
+                            s1 = next(iter(outer.sheet_iter()))
+                            bind(s1)
+                            it1 = s1.rows()
+                            next(it1, None)
+                            try:
+                                with (opener(path2, fo2) if supplied else opener(path2)) as inner:
+                                    s2 = next(iter(inner.sheet_iter()))
+                                    bind(s2)
+                                    it2 = s2.rows()
+                                    next(it2, None)
+                                    if inner_raises:
+                                        raise Boom()
+                            except Boom:
+                                pass
+                            next(it1, None)
+                    except BaseException as ex:  # noqa: BLE001
+                        ck.fail(f"lifecycle:{cls}", f"{cls}: two workbooks open at once: unexpected {type(ex).__name__}: {str(ex)[:60]}", inp)
+                    it1 = it2 = s1 = s2 = None
+                    left = (fds_on(path), fds_on(path2))
+                    if left != (0, 0):
+                        ck.fail(f"leak:{cls}", f"{cls}: two workbooks open at once: {left[0]} descriptor(s) on the first file and {left[1]} on the second "
+                                               f"still open after both with-blocks", inp)
+                    if supplied and not (fo1.closed and fo2.closed):   # type: ignore[union-attr]
+                        ck.fail(f"leak:{cls}", f"{cls}: two workbooks open at once: the caller's file objects are closed={fo1.closed},{fo2.closed} "  # type: ignore[union-attr]
+                                               f"after both with-blocks", inp)
+                        for f_ in (fo1, fo2):
+                            f_.close()  # type: ignore[union-attr]
+
         # ---- registry
         regs = [f"{s}={c.__name__}" for s, c in file_registry.suffix_map.items()]
         for suffix in list(file_registry.suffix_map) + [".txt", ".xyz", "", ".CSV"]:
